@@ -607,7 +607,6 @@ const strDecls = `(declare-fun slen (Str) Int)
 
 const strAxioms = `(assert (= (slen sempty) 0))
 (assert (forall ((s Str)) (! (>= (slen s) 0) :pattern ((slen s)))))
-(assert (forall ((s Str) (i Int)) (! (and (<= 0 (sat s i)) (<= (sat s i) 255)) :pattern ((sat s i)))))
 (assert (forall ((s Str) (t Str)) (! (= (streq s t) (= s t)) :pattern ((streq s t)))))
 (assert (forall ((s Str) (t Str)) (! (or (streq s t) (not (= (slen s) (slen t))) (and (<= 0 (sdiff s t)) (< (sdiff s t) (slen s)) (not (= (sat s (sdiff s t)) (sat t (sdiff s t)))))) :pattern ((streq s t)))))
 (assert (forall ((a (Array Int Int)) (o Int) (n Int)) (! (=> (>= n 0) (= (slen (absB a o n)) n)) :pattern ((absB a o n)))))
